@@ -1,6 +1,7 @@
 (* C07 — nothing is honoured after it has expired.  Statements only (credential kinds of the core model:
    authorization codes, opaque access tokens, refresh tokens; the other kinds are added with their flows). *)
-From FositeModel Require Import Base.Str Model.Scope Model.Core Model.Flows Proofs.StepProps.
+From FositeModel Require Import Base.Str Model.Scope Model.Core Model.Flows Cases.CasesHist Cases.Monitors Proofs.StepProps
+     Proofs.NowStep Proofs.MonitorC07.
 
 Theorem C07_code_not_redeemed_after_expiry :
   forall cfg s auth code redirect v vh,
@@ -130,3 +131,20 @@ Theorem C07_device_poll_uses_server_lifetimes : forall cfg s auth dev,
     s_exp_at (r_sess r) = Some (round_s (now s + cf_life_at cfg)).
 Proof. exact device_poll_uses_server_lifetimes. Qed.
 Print Assumptions C07_device_poll_uses_server_lifetimes.
+
+(* the clock of the model moves only with OAdvance (so the monitor's clock, which adds up the advances, is the model's) *)
+Theorem C07_only_advance_moves_the_clock : forall cfg s o,
+  now (fst (step cfg s o)) = match o with OAdvance ms => (now s + ms)%Z | _ => now s end.
+Proof. exact now_step. Qed.
+Print Assumptions C07_only_advance_moves_the_clock.
+
+(* the expiry clause of the history monitor (Cases/Monitors.v clock_from: every probe that reports a credential active
+   carries an expiry that has not passed) holds of the model's own trace of every history, whatever the configuration and
+   registrations: the tags it would report are never produced.  An implementation trace that carries one of them therefore
+   differs from every trace of the model. *)
+Theorem C07_monitor_expiry_clause_holds_of_every_model_trace : forall cfg cls h jwt,
+  let r := clock_from jwt cfg cls 0%Z 0 (trace cfg (state0 (clients_of cls)) h) in
+  r <> Some "token_reported_active_after_its_expiry"%string /\
+  r <> Some "jwt_access_token_honoured_within_the_second_after_its_expiry"%string.
+Proof. exact monitor_expiry_clause_sound. Qed.
+Print Assumptions C07_monitor_expiry_clause_holds_of_every_model_trace.
